@@ -114,6 +114,7 @@ def eval_renaming(ctx, R):
                 names_in(v_, out, depth + 1)
 
     decided = 0
+    all_decided = True
     for enum, fn in (("Statement", vs), ("Expression", ve)):
         d = a10.enum_def(AST, enum)
         for vname, vdef in d.items():
@@ -169,12 +170,39 @@ def eval_renaming(ctx, R):
                     elif isinstance(g, str) and g not in ("x.7", "y.7", "z"):
                         problems.append("an occurrence reads `%s`" % g)
             if unsupported:
-                ctx.note("unique_vars %s::%s: outside the evaluator's subset (%s)" % (enum, vname, unsupported))
+                ctx.note("unique_vars %s::%s: outside the evaluator's subset (%s): shape obligations apply" % (enum, vname, unsupported))
+                all_decided = False
                 continue
             decided += 1
             ctx.check(R, "%s/%s/every-occurrence-renamed" % ("visit_statement" if enum == "Statement" else "visit_expression", vname), not problems, "; ".join(sorted(set(problems))[:2]) or "x / y read x.7 / y.7 everywhere below the node, once; z untouched", site(UV, fn))
+    # the declaration arm: the declared name takes the version the environment hands out (none for a first declaration);
+    # the dimensions are renamed like any other expression
+    decl_ok = None
+    if "Declaration" in a10.enum_def(AST, "Statement"):
+        probs = []
+        try:
+            for handed in (None, 3):
+                envd = ("O", "environment", (("get_current_version", ("PY", lambda n_: S("Some", 7) if n_ in ("x", "y") else NONE)), ("get_declaration", ("PY", lambda n_: NONE)),
+                                             ("add_declaration", ("PY", lambda *a, handed=handed: NONE if handed is None else S("Some", handed))), ("add_variable_block", ("PY", lambda: ("T", ()))), ("remove_variable_block", ("PY", lambda: ("T", ())))))
+                node = V("Statement", "Declaration", meta=O("m", file_id=NONE, file_location=O("loc")), xtype=O("xtype"), name="d", dimensions=("L", (leaf(),)), is_constant=False)
+                w.call_fn(vs, [node, envd, Sink()])
+                want = "d" if handed is None else "d.3"
+                if node[3].get("name") != want:
+                    probs.append("a declaration whose name %s is now called `%s`, expected `%s`" % ("is new" if handed is None else "gets version 3", node[3].get("name"), want))
+                got = []
+                names_in(node[3].get("dimensions"), got)
+                if sorted(got) != ["x.7", "y.7"]:
+                    probs.append("the names in the dimensions read %s" % sorted(got))
+            decl_ok = not probs
+            ctx.check(R, "visit_statement/Declaration/renamed-with-its-new-version", not probs, "; ".join(probs) or "the declared name takes the version handed out by the environment; dimensions are renamed", site(UV, vs))
+        except Unsupported as u:
+            ctx.note("unique_vars Statement::Declaration: outside the evaluator's subset (%s): shape obligations apply" % u)
+        except Panic as p_:
+            decl_ok = False
+            ctx.bad(R, "visit_statement/Declaration/renamed-with-its-new-version", "panics (%s)" % p_, site(UV, vs))
     ctx.floor(R, "node kinds whose renaming was evaluated", decided, 15)
-    return decided >= 15
+    eval_renaming.declaration_decided = decl_ok is not None
+    return decided >= 15 and all_decided
 
 
 def rule_renaming(ctx):
@@ -235,7 +263,7 @@ def rule_renaming(ctx):
         ctx.floor(R, "renaming sites", sites, 3)
     # Declaration: name replaced by name.version on Some(version)
     fn = find_fn(UV, "visit_statement")
-    if fn is not None:
+    if fn is not None and not getattr(eval_renaming, "declaration_decided", False):
         asg = [a for a in walk(fn["body"]) if a["k"] == "Assign" and render(a["l"]).replace(" ", "") == "*name" and a["r"]["k"] == "Macro"]
         ok = len(asg) == 1 and asg[0]["r"]["raw"].replace(" ", "") == '"{name}.{version}"'
         ctx.check(R, "visit_statement/Declaration/renamed-with-its-new-version", ok, render(asg[0])[:100] if asg else "no renaming", site(UV, fn))
